@@ -68,7 +68,7 @@ class Worker(threading.Thread):
         files = [f for f in self.files if f["anchor"].split("/")[0] in pkg_dirs_for(b["package"])]
         self.copies = lrv.apply_overlay(self.scratch, files, b["swap"], b.get("edits", ()))
         ht = max([h.timeout or TIER_TIMEOUT[self.tier] for h in self.hs])
-        cmd = lrv.kani_cmd(self.build, [h.id for h in self.hs],
+        cmd = lrv.kani_cmd(self.build, [h.fq() for h in self.hs],
                            os.path.join(self.scratch, "target"), ht)
         env = dict(lrv.ENV)
         if b.get("rustflags"):
@@ -95,7 +95,7 @@ def pkg_dirs_for(package):
 # replay (DESIGN 2.6): regenerate the counterexample as a unit test and run it natively
 # -------------------------------------------------------------------------------------------------
 def generate_playback(w, h, tier):
-    cmd = lrv.kani_cmd(w.build, [h.id], os.path.join(w.scratch, "target"),
+    cmd = lrv.kani_cmd(w.build, [h.fq()], os.path.join(w.scratch, "target"),
                        6 * (h.timeout or TIER_TIMEOUT[tier]),
                        ["-Z", "concrete-playback", "--concrete-playback=print"])
     env = dict(lrv.ENV)
